@@ -1019,6 +1019,7 @@ static inline int myth_yield_ex_body(int opt) {
 #endif
   //Get next runnable thread
   next = NULL;
+  MYTH_VERIF_EV2("YieldBeg", VD(th), opt);
   switch (opt) {
   case myth_yield_option_half_half: {
     if (myth_random(0, 2) == 0) {
@@ -1069,6 +1070,7 @@ static inline int myth_yield_ex_body(int opt) {
 #if MYTH_YIELD_DEBUG
   myth_dprintf("myth_yield:thread %p continues execution\n",th);
 #endif
+  MYTH_VERIF_EV1("YieldEnd", VD(th));
   return 0;
 }
 
